@@ -10,12 +10,15 @@ use crate::ogre_std::{
         },
         ogre_sync,
     };
+#[cfg(not(feature = "verif"))]
 use std::{
     time::Duration,
     sync::atomic::{AtomicU32, AtomicBool, Ordering::Relaxed},
     pin::Pin,
     task::Waker,
 };
+#[cfg(feature = "verif")]
+use {crate::verif::atomic::{AtomicU32, AtomicBool}, std::{time::Duration, sync::atomic::Ordering::Relaxed, pin::Pin, task::Waker}};
 use std::cell::UnsafeCell;
 use minstant::Instant;
 
@@ -88,6 +91,7 @@ StreamsManagerBase<MAX_STREAMS> {
             None => panic!("StreamsManager: '{}' has a MAX_STREAMS of {MAX_STREAMS} -- which just got exhausted: stats: {} streams were created; {} dropped. Please, increase the limit or fix the LOGIC BUG!",
                            self.streams_manager_name, self.created_streams_count.load(Relaxed), self.finished_streams_count.load(Relaxed)),
         };
+        #[cfg(feature = "verif")] crate::verif::yield_point("sm.create.keep_running");
         let keep_streams_running = unsafe { &mut * self.keep_streams_running.get() };
         keep_streams_running[stream_id as usize] = true;
         self.sync_vacant_and_used_streams();
@@ -97,6 +101,7 @@ StreamsManagerBase<MAX_STREAMS> {
     /// Wakes the `stream_id` -- for instance, when an element arrives at an empty container.
     #[inline(always)]
     pub fn wake_stream(&self, stream_id: u32) {
+        #[cfg(feature = "verif")] crate::verif::yield_point("sm.wake.read_slot");
         let wakers = unsafe { &* self.wakers.get() };
         match unsafe {wakers.get_unchecked(stream_id as usize)} {
             Some(waker) => waker.wake_by_ref(),
@@ -124,6 +129,7 @@ StreamsManagerBase<MAX_STREAMS> {
     /// Returns `false` if the `Stream` has been signaled to end its operations, causing it to report "out-of-elements" as soon as possible.
     #[inline(always)]
     pub fn keep_stream_running(&self, stream_id: u32) -> bool {
+        #[cfg(feature = "verif")] crate::verif::yield_point("sm.keep_running.read");
         unsafe {
             let keep_streams_running = &* self.keep_streams_running.get();
             *keep_streams_running.get_unchecked(stream_id as usize)
@@ -147,6 +153,7 @@ StreamsManagerBase<MAX_STREAMS> {
     /// Signals `stream_id` to end, as soon as possible -- making it reach its end-of-life.\
     /// Also guarantees that it will be awoken to react to the command immediately
     pub fn cancel_stream(&self, stream_id: u32) {
+        #[cfg(feature = "verif")] crate::verif::yield_point("sm.cancel.write");
         let keep_streams_running = unsafe { &mut * self.keep_streams_running.get() };
         keep_streams_running[stream_id as usize] = false;
         self.wake_stream(stream_id);
@@ -156,6 +163,7 @@ StreamsManagerBase<MAX_STREAMS> {
     /// Any parked streams are awaken, so they may end as well.
     pub fn cancel_all_streams(&self) {
         let used_streams = unsafe { &* self.used_streams.get() };
+        #[cfg(feature = "verif")] crate::verif::yield_point("sm.cancel_all.read_used");
         for stream_id in used_streams.iter() {
             if *stream_id == u32::MAX {
                 break
@@ -182,6 +190,7 @@ StreamsManagerBase<MAX_STREAMS> {
             }
         }
 
+        #[cfg(feature = "verif")] crate::verif::yield_point("sm.register.read_slot");
         match unsafe { wakers.get_unchecked_mut(stream_id as usize) } {
             Some(registered_waker) => {
                 if !registered_waker.will_wake(waker) {
@@ -219,6 +228,7 @@ StreamsManagerBase<MAX_STREAMS> {
     /// WARNING: the sentinel value u32::MAX is used to indicate a premature end of the list
     #[inline(always)]
     pub fn used_streams(&self) -> &[u32; MAX_STREAMS] {
+        #[cfg(feature = "verif")] crate::verif::yield_point("sm.used_streams.read");
         unsafe { &* self.used_streams.get() }
     }
 
@@ -237,18 +247,21 @@ StreamsManagerBase<MAX_STREAMS> {
                 Some(next_vacant_stream_id) => {
                     for used_stream_id in i .. *next_vacant_stream_id {
                         last_used_stream_id += 1;
+                        #[cfg(feature = "verif")] crate::verif::yield_point("sm.sync.write_entry");
                         unsafe { *used_streams.get_unchecked_mut(last_used_stream_id as usize)  = used_stream_id };
                     }
                     i = *next_vacant_stream_id + 1;
                 }
                 None => {
                     last_used_stream_id += 1;
+                    #[cfg(feature = "verif")] crate::verif::yield_point("sm.sync.write_entry");
                     unsafe { *used_streams.get_unchecked_mut(last_used_stream_id as usize) = i };
                     i += 1;
                 }
             }
         }
         for i in (last_used_stream_id + 1) as usize .. MAX_STREAMS {
+            #[cfg(feature = "verif")] crate::verif::yield_point("sm.sync.write_sentinel");
             unsafe { *used_streams.get_unchecked_mut(i) = u32::MAX };
         }
         ogre_sync::unlock(&self.streams_lock);
